@@ -314,6 +314,8 @@ pub enum Op {
     SecondOpen,
     /// cross-invariant
     Check,
+    /// C18: everything is flushed and major-compacted - an assigned filter must have acted
+    CheckFiltered,
     // ---- THR only (main program)
     /// run the client threads
     RunThreads,
